@@ -204,6 +204,13 @@ def check_props_shape(pid):
 
 def prove(run, pid, extra_targets=()):
     """Build Props/<pid>.vo, record one obligation per pinned theorem, parse Print Assumptions."""
+    # every generated file is brought up to date with /repo first, so that the proofs are always
+    # checked against what the code says NOW, whatever ran before
+    build_translator()
+    for kind, outfile in (("treemath", "TreeMathGen.v"), ("codec", "CodecTypes.v"), ("effects", "ProcessEffects.v"), ("window", "WindowGen.v")):
+        okg, msg = regen(kind, outfile)
+        if not okg:
+            run.notes.append(f"translation ({kind}) failed: {msg[-300:]}")
     ok, log = coq_make([f"Props/{pid}.vo"] + list(extra_targets))
     names = props_theorems(pid)
     bad = scan_forbidden()
